@@ -44,6 +44,19 @@ def run_contract_task(args):
         res['kind'] = 'contract'
         res['shard'] = opts.get('shard')
         res['doc'] = c.doc
+        # assumed contracts used at call sites during this proof, with what they promise
+        used = []
+        for nm in res.get('called', []):
+            if nm.endswith(' [assumed]'):
+                base = nm[:-len(' [assumed]')]
+                a = next((x for x in reg.all if x.name == base and x.assumed), None)
+                txt = ((a.doc or type(a).__doc__ or '') if a is not None else '').strip().replace('\n', ' ')
+                used.append(f'{base}: {" ".join(txt.split())[:260]}' if txt else base)
+        res['assumed_used'] = used
+        import sys as _sys
+        mod = _sys.modules.get(type(c).__module__)
+        res['contract_module'] = type(c).__module__
+        res['module_doc'] = " ".join((getattr(mod, '__doc__', '') or '').split())[:700]
         res['assumed'] = c.assumed
         res['is_lemma'] = getattr(c, 'is_lemma', False)
         return res
